@@ -209,10 +209,15 @@ CONSTANTS
   BV = {%(bv)s}
   AIdx = {%(aidx)s}
   MV = {%(mv)s}
-  Kinds = {"streq", "nocase", "checkeq", "bineq", "bitseq"}
+  Kinds = {%(kinds)s}
+  MaxSum = %(maxsum)d
+  Grid = %(grid)d
 INVARIANT Dump
 CHECK_DEADLOCK FALSE
 """
+FM_KINDS = '"streq", "nocase", "checkeq", "bineq", "bitseq", "equals", "contains", "exception", "unsupported"'
+ONE_OPERAND = ("exception", "unsupported")
+RENDERED = ("equals", "contains", "exception", "unsupported")
 FM_TRACE = """SPECIFICATION %(spec)s
 CONSTANTS
   Syms = {1}
@@ -235,6 +240,75 @@ def tohex(codes):
 
 def printed(codes):
     return "".join({6: "\\n", 7: "\\x01"}.get(c, BYTE[c]) for c in codes)
+
+
+def rle(codes):
+    out = []
+    for c in codes:
+        if out and out[-1][0] == c:
+            out[-1][1] += 1
+        else:
+            out.append([c, 1])
+    return out
+
+
+def unrle(runs):
+    return [c for c, n in runs for _ in range(n)]
+
+
+def legal_row(kind, e, a):
+    """Is (e, a) a pair of operands on which a check of this kind fails (so that the failure object is built)?"""
+    if kind == "streq":
+        return e != a
+    if kind == "nocase":
+        return [1 if c == 2 else c for c in e] != [1 if c == 2 else c for c in a]
+    if kind == "bineq":
+        return len(e) == len(a) and e != a
+    if kind == "contains":
+        return "".join(BYTE[c] for c in e) not in "".join(BYTE[c] for c in a)
+    if kind in ONE_OPERAND:
+        return a == []
+    return True
+
+
+def rand_text(rng, n, syms):
+    """n symbols in a few runs (long operands stay cheap to log and to expand)"""
+    runs, left = [], n
+    while left > 0:
+        k = left if (rng.random() < 0.35 or len(runs) >= 5) else rng.randint(1, left)
+        runs.append([rng.choice(syms), k])
+        left -= k
+    return unrle(runs)
+
+
+def length_random(rng, n, maxsum):
+    """Seeded random failing checks of every string kind: the sum of the operand lengths uniform in 0..maxsum, any split, operands of
+    a few runs over the whole alphabet (unprintable symbols included for the kinds that escape), differing anywhere."""
+    esc_syms = [1, 2, 3, 4, 5, 8, 9, 1, 8, 9, 6, 7]
+    plain = [1, 2, 3, 4, 5, 8, 9]
+    rows = []
+    while len(rows) < n:
+        kind = rng.choice(["streq", "nocase", "checkeq", "bineq", "equals", "contains", "exception", "unsupported"])
+        syms = plain if kind in RENDERED else esc_syms
+        S = rng.randint(0, maxsum)
+        if kind in ONE_OPERAND:
+            e, a = rand_text(rng, S, syms), []
+        elif kind == "bineq":
+            e = rand_text(rng, max(1, S // 2), syms)
+            a = list(e)
+            i = rng.randrange(len(a))
+            a[i] = rng.choice([c for c in syms if c != a[i]])
+        else:
+            ne = rng.choice([0, S, rng.randint(0, S), rng.randint(0, S)])
+            e = rand_text(rng, ne, syms)
+            if rng.random() < 0.3 and kind != "contains":
+                # a common beginning: the difference anywhere, also at the very end / one operand a prefix of the other
+                a = (e + rand_text(rng, S, syms))[:S - ne] if S - ne else []
+            else:
+                a = rand_text(rng, S - ne, syms)
+        if legal_row(kind, e, a):
+            rows.append([kind, tohex(e), tohex(a)])
+    return rows
 
 
 def hex8(v):
@@ -300,11 +374,13 @@ def fm_key(kind, ex, idx, observed):
     k, eh, ah = ex[idx][0], ex[idx][1], ex[idx][2]
     if eh == "-" or ah == "-":
         rel = "null-operand"
+    elif k in ONE_OPERAND:
+        rel = "long-operand" if len(eh) > 200 else "short-operand"
     else:
         e = [CODE.get(chr(int(eh[i:i + 2], 16)), 0) for i in range(0, len(eh), 2)]
         a = [CODE.get(chr(int(ah[i:i + 2], 16)), 0) for i in range(0, len(ah), 2)]
         rel = "equal-text" if e == a else ("same-printed-form" if 0 not in e + a and printed(e) == printed(a) else
-                                           ("long-operands" if len(e) > 100 else "different-printed-form"))
+                                           ("long-operands" if max(len(e), len(a)) > 100 else "different-printed-form"))
     what = "unsafe" if (observed or {}).get("safe") is False else "says"
     return "%s:%s:%s:%s" % (kind, k, what, rel)
 
@@ -316,9 +392,9 @@ def unsafe_line(line, why):
         by = lambda h: list(bytes.fromhex(h))
         return json.dumps({"op": "bitseq", "w": int(f[4]), "e": by(f[1]), "a": by(f[2]), "m": by(f[3]), "has_e": True, "has_a": True,
                            "eb": [], "ab": [], "msglen": 0, "safe": False, "why": why[:200]})
-    unhex = lambda h: [CODE.get(chr(int(h[i:i + 2], 16)), 100) for i in range(0, len(h), 2)] if h != "-" else []
+    unhex = lambda h: rle([CODE.get(chr(int(h[i:i + 2], 16)), 100 + int(h[i:i + 2], 16)) for i in range(0, len(h), 2)]) if h != "-" else []
     return json.dumps({"op": f[0], "e": unhex(f[1]), "a": unhex(f[2]), "enull": f[1] == "-", "anull": f[2] == "-",
-                       "haspos": False, "pos": 0, "has_e": True, "has_a": True, "raw": False, "msglen": 0, "safe": False, "why": why[:200]})
+                       "haspos": False, "pos": 0, "f": [], "raw": False, "msglen": 0, "safe": False, "why": why[:200]})
 
 
 def fm_harness(ctx, exe):
@@ -373,8 +449,25 @@ def message_part(ctx, nontrivial):
                {"widths": "1, 2, 3, 4, 5, 6, 7, 8", "fills": "0, 255", "bv": "1, 128", "aidx": "1, 5, 8", "mv": "15, 255"})
     r = ctx.model_check("FailMsg", ctx.write_cfg("MC_FailMsg", FM_MC % lat), workers=4, timeout=1500, heap="6g")
     ctx.notes["model_messages"] = {"lattice": lat}
-    g = ctx.tlc("Gen_FailMsg", ctx.write_cfg("Gen_FailMsg", FM_GEN % lat), workers=8, timeout=1800, heap="8g")
-    rows = [[b["kind"], tohex(b["e"]), tohex(b["a"])] for b in g.beh if b["kind"] != "bitseq"]
+    # Grid beyond MaxSum: the splits of a sum are (0, S), (S, 0) and the halves only
+    maxsum, grid = (600, 601) if quick else (700, 16)
+    gen = dict(lat, kinds=FM_KINDS, maxsum=maxsum, grid=grid)
+    g = ctx.tlc("Gen_FailMsg", ctx.write_cfg("Gen_FailMsg", FM_GEN % gen), workers=8, timeout=1800, heap="8g")
+    rows = [[b["kind"], tohex(b["e"]), tohex(b["a"])] for b in g.beh if b["kind"] != "bitseq" and "e" in b]
+    # every operand length: the grid of the specification (for every kind every sum of the two operand lengths 0..maxsum, several
+    # splits each), then seeded random operands of any content with the sum of the lengths uniform over the same range
+    grid_rows = [[b["kind"], tohex(unrle(b["er"])), tohex(unrle(b["ar"]))] for b in g.beh if "er" in b]
+    if not grid_rows:
+        raise Infra("no rows generated by Gen_FailMsg (length grid)")
+    bad = [r_ for r_ in grid_rows if not legal_row(r_[0], [CODE[chr(int(r_[1][i:i + 2], 16))] for i in range(0, len(r_[1]), 2)],
+                                                   [CODE[chr(int(r_[2][i:i + 2], 16))] for i in range(0, len(r_[2]), 2)])]
+    if bad:
+        raise Infra("the length grid has a row on which the check would not fail: %s" % bad[0][:1])
+    rnd_rows = length_random(ctx.rng, 1500 if quick else 20000, maxsum)
+    ctx.notes["length_rows"] = {"max_sum_of_operand_lengths": maxsum, "grid_rows": len(grid_rows), "random_rows": len(rnd_rows),
+                                "formatted_lengths_hit": len(set((r_[0], (len(r_[1]) + len(r_[2])) // 2) for r_ in grid_rows))}
+    ctx.sample({"source": "length grid (TLC GLSpec) and seeded random lengths", "execution": ["\t".join(x[:60] for x in r_) for r_ in grid_rows[:2] + rnd_rows[:3]]})
+    rows += grid_rows + rnd_rows
     bits = [["bitseq", bytes(b["e"]).hex(), bytes(b["a"]).hex(), bytes(b["m"]).hex(), b["w"]] for b in g.beh if b["kind"] == "bitseq"]
     if not bits:
         raise Infra("no bits-equal rows generated by Gen_FailMsg")
@@ -386,13 +479,13 @@ def message_part(ctx, nontrivial):
     if not rows:
         raise Infra("no rows generated by Gen_FailMsg")
     # beyond the lattice: NULL operands, very long operands (difference at the very end / in the middle), empty vs long
-    for k in ("streq", "nocase"):
+    for k in ("streq", "nocase", "equals"):
         rows += [[k, "-", tohex([1, 1])], [k, tohex([1]), "-"], [k, "-", "-"]]
     for n, d in ((300, 299), (5000, 4999), (5000, 2500), (20000, 19999)):
         e = [8] * n
         a = list(e)
         a[d] = 9
-        for k in ("streq", "nocase", "checkeq", "bineq"):
+        for k in ("streq", "nocase", "checkeq", "bineq", "equals", "contains"):
             rows.append([k, tohex(e), tohex(a)])
         rows.append(["streq", tohex(e), tohex(e[:d])])
     rows += [["streq", "", tohex([8] * 5000)], ["checkeq", tohex([8] * 5000), tohex([8] * 5000)]]
@@ -432,7 +525,11 @@ def run(ctx):
         rule="buffer: TLC-generated call sequences (exhaustive to depth D over long/short file names and leak batches; simulation to depth 14 "
              "over file-name lengths 0..5000, sizes 0..5000, 1..3000 leaks) plus seeded random histories on the real MemoryLeakDetector "
              "under ASan with the vsnprintf seam and the H2 hooks recorded; messages: every operand pair of the lattice for the four "
-             "position-printing failure kinds plus NULL / very long operands on the real failure classes under ASan; bits-equal failures "
+             "position-printing failure kinds plus equals / contains / unexpected-exception / unsupported-feature failures, NULL / very long operands, "
+             "and every operand length: the specification's length grid (for every kind every sum 0..600 (700) of the two operand lengths with the "
+             "splits all-in-expected, all-in-actual, halves (thorough: every 16th split), one-operand kinds every length) plus seeded random operands "
+             "of any content and length sum - each operand must be the content of a delimited field of its own in its shown (escaped) form, "
+             "on the real failure classes under ASan; bits-equal failures "
              "for every operand width 1..8 bytes: TLC byte-lattice of 64-bit operands and masks, every bit position x width sweep, seeded random "
              "64-bit operands/masks - both operand fields must show exactly 8*width positions with the operand's own bits; "
              "distinct = distinct call sequences / rows; non-trivial (buffer) = the nominal model says the behaviour reaches a report begun "
@@ -442,5 +539,7 @@ def run(ctx):
                      "Cap, the footer reservation and the fixed text lengths are measured from the code and given to TLC as constants",
                      "the exact wording of messages is not specified: only bounds, termination, the stated total, the too-many notice, the printed position",
                      "operands of the message part use ASCII symbols only (bytes >= 0x80 are C13's subject)",
+                     "an operand is shown when it is the whole content of a field the message delimits (between '<' and '>'; the text after ': ' for an unexpected exception; between quotes for an unsupported feature), escaped in C notation for the kinds that print C strings; a binary operand when a field is the hex dump of its bytes; the wording around the fields is not specified",
+                     "equals / contains / exception / unsupported-feature operands are texts the caller rendered: generated printable and expected as they are",
                      "bits-equal operands: unsigned long is 8 bytes (LP64); widths 1..8 = the sizes an integer actual operand of BITS_EQUAL can have; a position the mask excludes may show a don't-care mark or the operand's true bit (the wording is not specified), never a wrong bit",
                      "memory safety and termination of message construction are observed by ASan/UBSan and a deadline on the executed rows"])
